@@ -340,6 +340,10 @@ class Multiplexer(wiring.Component):
                 :attr:`~Multiplexer._Shadow.size`, it replaces the latter.
             """
             assert isinstance(reg_range, range)
+            if isinstance(self._ranges, frozenset):
+                # The shadow has already been prepared by a previous elaboration.
+                assert reg_range in self._ranges
+                return
             self._ranges.add(reg_range)
             reg_size   = 2 ** ceil_log2(reg_range.stop - reg_range.start)
             self._size = max(self._size, reg_size)
